@@ -21,7 +21,9 @@ Inductive case :=
 | CM (random : string) (delta : Z) (obs : string)
   (* header prove value b of any length: observed lottery bytes VRFProof2Hash(tryZeroPadding(b)) and
      ConsensusHelperImpl.VRFProve2Value(big(b)) bytes (32 bytes, big-endian, as hex) *)
-| CO (b obs_lottery : string).
+| CO (b obs_lottery : string)
+  (* logical.CalDeltaByTime(after, before) on two times given in ns *)
+| CDt (after before obs : Z).
 
 Definition P (mq pmin pmax pidx th : Z) : params :=
   {| maxqn := mq; pp_min := pmin; pp_max := pmax; pp_idx := pidx; thr := th |}.
@@ -56,4 +58,5 @@ Definition check (c : case) : bool :=
   | CM r d obs => bytes_eqb (gen_vrf_msg_sha3 (unhex r) d) (unhex obs)
   | CO b obs => bytes_eqb (lottery_reads (unhex b)) (unhex obs)
                 && bytes_eqb (verify_gamma (unhex b)) (unhex obs)
+  | CDt a b obs => delta_of a b =? obs
   end.
